@@ -75,28 +75,8 @@ func (w *verifWorld) preStreams(pre *verifSnap, r *subConnRef) int32 {
 	return v
 }
 
-// pickKnown registers the predicates of the known findings a Pick can run into on this tree
-// (DESIGN.md section 7); each characterises the failing inputs.
-func (w *verifWorld) pickKnown(c *verifCall) {
-	gb := w.gb
-	nP := len(c.p.scRefs)
-	homeReady, bound, hadFb := false, false, false
-	if c.keyed {
-		homeReady = w.ready(w.home(c.key))
-		_, bound = gb.affinityMap[c.key]
-		_, hadFb = gb.fallbackMap[c.key]
-	}
-	fallback := gb.cfg.ChannelPool.FallbackToReady
-	verifKnown("F-keys0", c.hasCfg && c.cmd != pb.AffinityConfig_BIND && c.ctx.hasGcp && c.req != nil && len(c.req.Keys) == 0 && nP > 0)
-	fbPath := c.keyed && bound && !homeReady && fallback && !hadFb && nP > 0
-	_, curIsGcp := gb.picker.(*gcpPicker)
-	curEmpty := false
-	if gp, ok := gb.picker.(*gcpPicker); ok {
-		curEmpty = len(gp.scRefs) == 0
-	}
-	verifKnown("F-fbpanic", fbPath && (!curIsGcp || curEmpty))
-	verifKnown("F-relock-2", fbPath)
-}
+// pickKnown registers the predicates of known findings a Pick can run into (none at present).
+func (w *verifWorld) pickKnown(c *verifCall) {}
 
 // placedOn returns the universe slot whose counter went up by one between the snapshots (nil if none).
 func (w *verifWorld) placedOn(pre, post *verifSnap) (*subConnRef, int32) {
@@ -147,8 +127,9 @@ func VerifH_pick() {
 		}
 	}
 	fallback := cp.FallbackToReady
-	// the request message cannot be read: the pick fails (nil message) or hits F-keys0 (no key)
-	errPath := c.hasCfg && c.cmd != pb.AffinityConfig_BIND && c.ctx.hasGcp && (c.req == nil || len(c.req.Keys) == 0)
+	// the request message cannot be read (nil message): the pick fails with an error;
+	// a request that carries no key is routed like an unkeyed call
+	errPath := c.hasCfg && c.cmd != pb.AffinityConfig_BIND && c.ctx.hasGcp && c.req == nil
 	unkeyedPath := nP > 0 && !errPath && !(c.keyed && bound) // the pick takes the least-loaded path
 
 	w.pickKnown(c)
@@ -186,8 +167,12 @@ func VerifH_pick() {
 		verifAssert(verifImplies(mayGrow && !cc.failNew && pre.nAddrs > 0, grew), "C03: saturated pool below maxSize did not grow")
 		verifAssert(verifImplies(saturated, err == balancer.ErrNoSubConnAvailable), "C03: call that found the pool saturated below maxSize was not told to wait")
 		verifAssert(verifImplies(!saturated, err == nil), "C03: call not placed although a channel has capacity or the pool is at maxSize")
-	} else if !(fallback && !homeReady) {
-		verifAssert(!grew, "C03: a call for a bound key grew the pool")
+	} else {
+		verifAssert(!grew, "C03: a call that does not take the least-loaded path grew the pool")
+	}
+	if errPath && nP > 0 {
+		verifReach("unreadable request")
+		verifAssert(err != nil && err != balancer.ErrNoSubConnAvailable, "C05: unreadable request message did not yield an error")
 	}
 	if grew {
 		verifReach("pool grew")
